@@ -435,7 +435,8 @@ class ppc_spr(ppc_imm):
         self.expr = ExprInt(ppc_swap_10(v), 32)
         return True
 
-    def encode(self, e):
+    def encode(self):
+        e = self.expr
         if not isinstance(e, ExprInt):
             return False
         self.value = ppc_swap_10(int(e))
@@ -447,7 +448,8 @@ class ppc_tbr(ppc_imm):
         self.expr = ExprInt(ppc_swap_10(v), 32)
         return True
 
-    def encode(self, e):
+    def encode(self):
+        e = self.expr
         if not isinstance(e, ExprInt):
             return False
         self.value = ppc_swap_10(int(e))
